@@ -546,6 +546,7 @@ def run_case(case):
                 {"status": np.array(st, dtype=np.int32), "value": np.zeros(len(st))})
 
     have_jac = False
+    pending = None  # first correspondence failure on a rejected call; a later oracle failure takes precedence
     for step, op in enumerate(case["ops"]):
         o = op["op"]
         where = f"op#{step} {o}"
@@ -582,10 +583,12 @@ def run_case(case):
                                  f"vals={','.join(['0'] * bs)} stop=0 arch=1 rnd=0").split(" itrs=")[0]
                 stat("rejected:early-" + what)
                 if e_impl != mm:
-                    return Failure("corr", f"{where}: {what} before tell_dqd impl={e_impl} model={mm}")
-                if len(log) != n0 or em.itrs != exp_itrs or em.restarts != exp_restarts:
-                    return Failure("corr", f"{where}: rejected {what} had effects: calls={[l[0] for l in log[n0:]]} "
-                                           f"itrs={em.itrs} restarts={em.restarts}")
+                    pending = pending or Failure(
+                        "corr", f"{where}: {what} before tell_dqd impl={e_impl} model={mm}")
+                elif len(log) != n0 or em.itrs != exp_itrs or em.restarts != exp_restarts:
+                    pending = pending or Failure(
+                        "corr", f"{where}: rejected {what} had effects: calls={[l[0] for l in log[n0:]]} "
+                                f"itrs={em.itrs} restarts={em.restarts}")
             continue
         if kind == "gae" and not have_jac:
             do_dqd()  # (shrinking may have removed the dqd op)
@@ -603,11 +606,14 @@ def run_case(case):
             head, d = parse_resp(mm)
             stat("rejected:status-length")
             if e_impl != head:
-                return Failure("corr", f"{where}: {len(op['st'])} statuses for {bs} rows impl={e_impl} model={head}")
-            if (len(log) != n0 or em.itrs != exp_itrs or em.restarts != exp_restarts
-                    or int(d["itrs"]) != exp_itrs or int(d["restarts"]) != exp_restarts):
-                return Failure("corr", f"{where}: rejected tell had effects: calls={[l[0] for l in log[n0:]]} "
-                                       f"itrs={em.itrs} restarts={em.restarts} model={mm}")
+                pending = pending or Failure(
+                    "corr", f"{where}: {len(op['st'])} statuses for {bs} rows impl={e_impl} model={head}")
+            elif (len(log) != n0 or em.itrs != exp_itrs or em.restarts != exp_restarts
+                  or int(d["itrs"]) != exp_itrs or int(d["restarts"]) != exp_restarts):
+                pending = pending or Failure(
+                    "corr", f"{where}: rejected tell had effects: calls={[l[0] for l in log[n0:]]} "
+                            f"itrs={em.itrs} restarts={em.restarts} model={mm}")
+            del log[n0:]
             continue
         if o != "iter":
             continue
@@ -708,7 +714,7 @@ def run_case(case):
                      f"stop={int(stop)} arch={nl(a_toks)} rnd={rnd}")
         head, d = parse_resp(mm)
         if head != "ok":
-            return Failure("corr", f"{where}: model rejected a tell the implementation accepted: {mm}")
+            return pending or Failure("corr", f"{where}: model rejected a tell the implementation accepted: {mm}")
         impl_acts = []
         for c in calls:
             if c[0] == "rk.rank":
@@ -744,8 +750,8 @@ def run_case(case):
                      "restarts": int(d["restarts"]), "handoff": mh, "restart_block": mt, "late": ml}
         if obs_impl != obs_model:
             diff = {k: (obs_impl[k], obs_model[k]) for k in obs_impl if obs_impl[k] != obs_model[k]}
-            return Failure("corr", f"{where}: impl/model differ on {diff}")
-    return None
+            return pending or Failure("corr", f"{where}: impl/model differ on {diff}")
+    return pending
 
 
 # --------------------------------------------------------------------------
